@@ -1,7 +1,7 @@
 #!/bin/bash
 # usage: tools/try_mutant.sh <patch.diff> <PROP> [<PROP>...]   -- apply to /repo, run quick checks, undo
 set -u
-patch=$1; shift
+patch=$(readlink -f "$1"); shift
 cd /verif
 if ! git -C /repo diff --quiet; then echo "repo dirty"; exit 3; fi
 if ! git -C /repo apply "$patch"; then echo "patch does not apply"; exit 3; fi
